@@ -39,6 +39,9 @@ pub struct RingMonitor {
     /// older than its own latest transmission (the predecessor's repeated pass, accepted as a
     /// second token after the station had used the first: observation O5).
     stale_token_at_tx: Option<usize>,
+    /// Per station: polls in a row that dropped undecodable data without a single telegram being
+    /// decoded in between (a receiver that has lost the frame boundaries).
+    discard_run: Vec<u32>,
 }
 
 impl RingMonitor {
@@ -62,6 +65,7 @@ impl RingMonitor {
             settle: 256 * 11 * crate::bus::BIT + 2 * w.stations.iter().map(|s| w.us(s.cfg.p_max_us + s.cfg.rx_chunk_us)).max().unwrap_or(0),
             settle_from: w.us(quiet_from_us),
             stale_token_at_tx: None,
+            discard_run: vec![0; n],
         }
     }
 
@@ -323,6 +327,13 @@ impl Monitor for RingMonitor {
     }
 
     fn on_poll(&mut self, w: &World, p: &PollInfo) {
+        for r in p.rx {
+            match &r.verdict {
+                RxVerdict::Consumed { .. } => self.discard_run[p.st] = 0,
+                RxVerdict::Discarded { .. } | RxVerdict::Anomaly { .. } => self.discard_run[p.st] += 1,
+                RxVerdict::Flushed { .. } => {}
+            }
+        }
         // a token that is older than the station's own latest transmission
         {
             let a = w.stations[p.st].cfg.addr;
@@ -363,7 +374,19 @@ impl Monitor for RingMonitor {
                     self.phase = Phase::Stable;
                     self.last_token_da = None;
                 } else if w.now > self.deadline {
-                    let (sig, why) = lockstep_diagnosis(w, self.stale_token_at_tx);
+                    let (mut sig, mut why) = lockstep_diagnosis(w, self.stale_token_at_tx);
+                    if sig == "not-converged" {
+                        // a receiver that reads the byte stream out of phase: it drops data at every
+                        // telegram of an otherwise healthy ring and never decodes one
+                        if let Some((st, n)) = self.discard_run.iter().enumerate().filter(|(st, n)| **n >= 50 && self.member[*st]).map(|(st, n)| (st, *n)).max_by_key(|(_, n)| *n) {
+                            sig = "not-converged-receiver-out-of-frame";
+                            why = format!(
+                                "; #{} has dropped undecodable data in {} polls in a row without decoding a single telegram although the telegrams on the bus are intact: its receive buffer is read out of phase (a byte of every telegram that equals a start delimiter arrives just after the previous garbage was dropped and starts the next pseudo-frame)",
+                                w.stations[st].cfg.addr,
+                                n
+                            );
+                        }
+                    }
                     self.violate(
                         w,
                         if self.recovery { "ring.recovery" } else { "ring.convergence" },
